@@ -1,11 +1,11 @@
-\* exhaustive, thorough: every triple of calls from 4 initial contents
+\* exhaustive, thorough: every triple of calls from the contents {a:x, ab:''}
 CONSTANTS
   StoreKeys <- KeysABC
   Targets <- TargetsABC
   Vals <- ValsEX
   MaxLen = 3
   Phased = FALSE
-  InitFamily <- InitFew
+  InitFamily <- InitOne
   Ops <- OpsAll
 INIT Init
 NEXT Next
